@@ -29,6 +29,8 @@ def main():
         else:
             obs = v.verify(key)
         out["symexec_s"] = round(time.time() - t0, 3)
+        if getattr(v, "vacuous_paths", None):
+            raise SpecError("vacuous path(s): the assumptions accumulated along %s are contradictory" % v.vacuous_paths[:3])
         if getattr(v, "vacuous", False):
             raise SpecError("vacuous contract: the requires clauses (with the declared types) are unsatisfiable")
         out["assumptions"] = sorted(v.assumptions)
